@@ -136,8 +136,8 @@ Proof.
   - destruct (Bool.eqb dh pe); [discriminate|]. destruct (kv_get m (k_key k)); [discriminate|]. inversion E; subst m1.
     cbn [inline_set_spans]. split; [apply Inest_push; assumption|]. intros a b La Ub Hd.
     unfold kchain in Hch. cbn [app map chain] in Hch. destruct Hch as (x & y & Sk & G1 & G2 & G3).
-    apply dnest_push; [exact Hd|eapply kspan_of_key_span; [exact Sk|lia|lia|lia]|].
-    rewrite Sv. cbn [osp_in]. apply sp_in_pair; lia.
+    apply dnest_push; [exact Hd|eapply kspan_of_key_span; [exact Sk|nlia|nlia|nlia]|].
+    rewrite Sv. cbn [osp_in]. apply sp_in_pair; nlia.
   - unfold kchain in Hch. cbn [app map chain] in Hch. destruct Hch as (x & y & Sk & G1 & G2 & G3).
     fold (kchain y mid (ptl ++ [k])) in G3. pose proof (chain_le _ _ _ G3) as Gle.
     destruct (kv_get m (k_key pk)) as [[k' it]|] eqn:G.
@@ -150,19 +150,19 @@ Proof.
       cbn [inline_set_spans]. rewrite (kv_get_set _ _ _ _ _ G). rewrite Sk. unfold widen; cbn [fst snd]. rewrite kv_set_set.
       destruct (IH sub true pe k v sub1 y mid av e Hsub R G3 Sv L1 L2 Hv) as [N1 N2].
       assert (D1 : dnest (N.min a0 x) (N.max b0 e) (inline_set_spans sub1 ptl (Some e)) = true).
-      { apply N2; [lia|lia|]. eapply dnest_mono; [| |exact Hsp]; lia. }
+      { apply N2; [nlia|nlia|]. eapply dnest_mono; [| |exact Hsp]; nlia. }
       split.
       * apply Inest_set; [exact Hm|]. rewrite inest_value, vnest_inline. rewrite D1, N1. reflexivity.
       * intros a b La Ub Hd. pose proof (dnest_get _ _ _ _ _ _ Hd G) as Ho. cbn [item_span value_span osp_in] in Ho.
-        apply dnest_set; [exact Hd|]. cbn [item_span value_span osp_in]. unfold sp_in in *; cbn [fst snd] in *. lia.
+        apply dnest_set; [exact Hd|]. cbn [item_span value_span osp_in]. unfold sp_in in *; cbn [fst snd] in *. nlia.
     + destruct (inline_insert [] true ptl pe k v) as [sub1| |] eqn:R; try discriminate E. inversion E; subst m1. clear E.
       cbn [inline_set_spans]. rewrite (kv_get_push _ _ _ G). rewrite Sk. unfold widen; cbn [fst snd]. rewrite (kv_set_push_none _ _ _ _ G).
       destruct (IH [] true pe k v sub1 y mid av e eq_refl R G3 Sv L1 L2 Hv) as [N1 N2].
-      assert (D1 : dnest x e (inline_set_spans sub1 ptl (Some e)) = true) by (apply N2; [lia|lia|reflexivity]).
+      assert (D1 : dnest x e (inline_set_spans sub1 ptl (Some e)) = true) by (apply N2; [nlia|nlia|reflexivity]).
       split.
       * apply Inest_push; [exact Hm|]. rewrite inest_value, vnest_inline. rewrite D1, N1. reflexivity.
-      * intros a b La Ub Hd. apply dnest_push; [exact Hd|eapply kspan_of_key_span; [exact Sk|lia|lia|lia]|].
-        cbn [item_span value_span osp_in]. apply sp_in_pair; lia.
+      * intros a b La Ub Hd. apply dnest_push; [exact Hd|eapply kspan_of_key_span; [exact Sk|nlia|nlia|nlia]|].
+        cbn [item_span value_span osp_in]. apply sp_in_pair; nlia.
 Qed.
 
 (* ---- 2. the bookkeeping of an earlier pair commutes with later insertions ------------------------------------------ *)
